@@ -38,7 +38,7 @@ def load_findings():
     return out
 
 
-HASHSEEDS = {"quick": "0", "thorough": "0"}
+HASHSEEDS = {"quick": "0,1", "thorough": "0,1,2,3"}
 
 
 def run_one(check_id, shard, tmp, idx):
